@@ -152,6 +152,8 @@ pub enum Doc {
     Block(String),
     /// `#[doc = "text"]`
     Attr(String),
+    /// `#[doc = r##"text"##]` (a raw string literal: nothing in it is escaped)
+    RawAttr(String),
     /// not a doc at all: an attribute of another crate, written verbatim as `#[text]` in the same place
     /// (`value(skip)`, `schemars(skip)`, `sqlx(rename = "x")` …); typeshare reads only serde / typeshare / cfg / doc
     Foreign(String),
@@ -316,6 +318,7 @@ fn render_docs(docs: &[Doc], indent: &str, out: &mut String) {
             }
             Doc::Block(t) => out.push_str(&format!("{indent}/** {t} */\n")),
             Doc::Attr(t) => out.push_str(&format!("{indent}#[doc = {}]\n", rust_str(t))),
+            Doc::RawAttr(t) => out.push_str(&format!("{indent}#[doc = r##\"{t}\"##]\n")),
             Doc::Foreign(t) => out.push_str(&format!("{indent}#[{t}]\n")),
         }
     }
